@@ -197,3 +197,73 @@ theorem searchPaths_complete (g : DGraph) : ∀ cs exe bb rest, Walk g cs exe bb
       exact hall _ (by simpa using this)
 
 end Tealer.Dfs
+
+namespace Tealer.Dfs
+
+/-- concatenating duplicate-free results whose members are told apart by the successor they start with -/
+theorem collect_nodup (f : Nat → Option (List (List Nat))) (k : Nat) (nx : List Nat) (ps : List (List Nat))
+    (h : collect f nx = some ps) (hnx : nx.Nodup)
+    (hf : ∀ nb ∈ nx, ∀ r, f nb = some r → r.Nodup ∧ ∀ π ∈ r, π[k]? = some nb) : ps.Nodup := by
+  induction nx generalizing ps with
+  | nil => simp [collect] at h; subst h; exact List.nodup_nil
+  | cons nb rest ih =>
+    simp only [collect] at h
+    split at h
+    · rename_i r rs hr hrs
+      simp only [Option.some.injEq] at h; subst h
+      have hnd := List.nodup_cons.mp hnx
+      have h1 := hf nb (by simp) r hr
+      have h2 := ih rs hrs hnd.2 (fun nb' hnb' r' hr' => hf nb' (List.mem_cons_of_mem _ hnb') r' hr')
+      rw [List.nodup_append]
+      refine ⟨h1.1, h2, ?_⟩
+      intro a ha b hb hab
+      subst hab
+      obtain ⟨nb', hnb', r', hr', hπ'⟩ := collect_mem f rest rs hrs a hb
+      have e1 := h1.2 a ha
+      have e2 := (hf nb' (List.mem_cons_of_mem _ hnb') r' hr').2 a hπ'
+      rw [e1] at e2
+      have : nb = nb' := Option.some.inj e2
+      subst this
+      exact hnd.1 hnb'
+    · cases h
+
+/-- NO PATH IS REPORTED TWICE: when the successor lists of the graph have no duplicates (the fourth pass never adds an
+    edge twice), the list of paths the search returns has no duplicates -/
+theorem searchPaths_nodup (g : DGraph) (hg : ∀ b, (g.next b).Nodup) :
+    ∀ fuel bb path cs exe ps, searchPaths g fuel bb path cs exe = some ps → ps.Nodup := by
+  intro fuel
+  induction fuel with
+  | zero => intro bb path cs exe ps h; simp [searchPaths] at h
+  | succ n ih =>
+    intro bb path cs exe ps h
+    have hv := searchPaths_valid g (n + 1) bb path cs exe ps h
+    unfold searchPaths at h
+    split at h
+    · simp at h; subst h; exact List.nodup_nil
+    split at h
+    · simp at h; subst h; exact List.nodup_nil
+    split at h
+    · simp at h; subst h; simp
+    split at h
+    · split at h
+      · cases h
+      · split at h
+        · simp at h; subst h; exact List.nodup_nil
+        · split at h
+          · cases h
+          · exact ih _ _ _ _ _ h
+    · split at h
+      · split at h
+        · split at h
+          · exact ih _ _ _ _ _ h
+          · simp at h; subst h; exact List.nodup_nil
+        · cases h
+      · apply collect_nodup _ (path.length + 1) (g.next bb) ps h (hg bb)
+        intro nb hnb r hr
+        refine ⟨ih _ _ _ _ _ hr, ?_⟩
+        intro π hπ
+        obtain ⟨rest, hπe, _⟩ := searchPaths_valid g n nb (path ++ [bb]) _ _ r hr π hπ
+        subst hπe
+        simp [List.getElem?_append_right]
+
+end Tealer.Dfs
